@@ -76,19 +76,19 @@ INSTANCES = [
     # the other scenarios (literal sizes and literal hook site: a symbolic site choice makes all later state
     # symbolic and the run does not finish in 25 min)
     inst(2, 1, 2, ['thorough'], site=1),
-    inst(2, 0, 2, ['thorough', 'new'], site=1),
-    inst(2, 0, 2, ['thorough', 'new'], site=2),
-    inst(2, 3, 2, ['thorough', 'new'], site=1),
-    inst(2, 3, 2, ['thorough', 'new'], site=2),
-    inst(1, 0, 1, ['thorough', 'new'], site=1),
-    inst(1, 0, 1, ['thorough', 'new'], site=2),
-    inst(1, 2, 1, ['thorough', 'new'], site=1),
-    inst(1, 2, 1, ['thorough', 'new'], site=2),
-    inst(2, 1, 1, ['thorough', 'new'], site=1),
-    inst(2, 1, 1, ['thorough', 'new'], site=2),
+    inst(2, 0, 2, ['thorough'], site=1),
+    inst(2, 0, 2, ['thorough'], site=2),
+    inst(2, 3, 2, ['thorough'], site=1),
+    inst(2, 3, 2, ['thorough'], site=2),
+    inst(1, 0, 1, ['thorough'], site=1),
+    inst(1, 0, 1, ['thorough'], site=2),
+    inst(1, 2, 1, ['thorough'], site=1),
+    inst(1, 2, 1, ['thorough'], site=2),
+    inst(2, 1, 1, ['thorough'], site=1),
+    inst(2, 1, 1, ['thorough'], site=2),
     inst(2, 1, 2, ['thorough'], st=1, site=2),
-    inst(2, 0, 2, ['thorough', 'new'], st=1, site=1),
-    inst(2, 0, 2, ['thorough', 'new'], st=1, site=2),
+    inst(2, 0, 2, ['thorough'], st=1, site=1),
+    inst(2, 0, 2, ['thorough'], st=1, site=2),
     # work already pending when the race happens: direct task in the central queue + placed task in a parked
     # worker's steal ring (resize must drain both; nobody else polls a steal ring of a 0-thread pool)
     inst(2, 0, 2, ['thorough'], site=2, pre=3, wsteps=3),
